@@ -253,6 +253,19 @@ fn build_packet(st: &Stream, f: &Frag) -> Vec<u8> {
     buf
 }
 
+/// (active streams, pooled data buffers, pooled section buffers) through the add-only hook
+/// `IpDefragPool::verif_stats` (only with `--cfg etherparse_verif`)
+#[cfg(etherparse_verif)]
+fn stats_str(pool: &IpDefragPool<u64, u32>) -> String {
+    let (a, d, s) = pool.verif_stats();
+    format!("stats={},{},{}", a, d, s)
+}
+
+#[cfg(not(etherparse_verif))]
+fn stats_str(_pool: &IpDefragPool<u64, u32>) -> String {
+    "stats=-".to_string()
+}
+
 fn run_pool(args: &[&str]) -> String {
     let ns: usize = args[0].parse().unwrap();
     let streams: Vec<Stream> = args[1..1 + ns].iter().map(|s| stream_of(s)).collect();
@@ -335,13 +348,40 @@ fn run_pool(args: &[&str]) -> String {
                     out.push("ret0".to_string());
                 }
             }
+            "rf" => {
+                // a vector the pool never handed out (the fields of IpDefragPayloadVec are public)
+                pool.return_buf(IpDefragPayloadVec {
+                    ip_number: IpNumber(253),
+                    len_source: LenSource::Ipv4HeaderTotalLen,
+                    payload: unhex(parts[1]),
+                });
+                out.push("retf".to_string());
+            }
             "t" => {
-                let cutoff: u64 = parts[1].parse().unwrap();
-                pool.retain(|t| cutoff <= *t);
+                if parts.len() == 2 {
+                    let cutoff: u64 = parts[1].parse().unwrap();
+                    pool.retain(|t| cutoff <= *t);
+                } else {
+                    // the same table as in ocaml/run_c11.ml
+                    let arg: u64 = parts[2].parse().unwrap();
+                    match parts[1] {
+                        "ge" => pool.retain(|t| arg <= *t),
+                        "lt" => pool.retain(|t| *t < arg),
+                        "ne" => pool.retain(|t| *t != arg),
+                        "eq" => pool.retain(|t| *t == arg),
+                        "mod" => pool.retain(|t| *t % 2 == (arg & 1)),
+                        "all" => pool.retain(|_| true),
+                        "none" => pool.retain(|_| false),
+                        _ => panic!("retain predicate"),
+                    }
+                }
                 out.push("retain".to_string());
             }
             _ => panic!("pool op"),
         }
+        // the numbers of the verification hook after every operation
+        let last = out.pop().unwrap();
+        out.push(format!("{} {}", last, stats_str(&pool)));
     }
     out.join(" ; ")
 }
